@@ -424,6 +424,10 @@ pub struct GenOpts {
     /// The TTL those records get (0: usable once, never cached; 1: cached, but
     /// served by the cache for less than a second, so looked up again and again).
     pub short_ttl_value: u32,
+    /// Per cent of the zones (below the top level) that are served, without glue,
+    /// by another zone's own glued name server plus a name in that zone that does
+    /// not exist: looking the ghost up fails, but brings the other server's glue.
+    pub ghost_ns_percent: u8,
 }
 
 impl Default for GenOpts {
@@ -440,6 +444,7 @@ impl Default for GenOpts {
             mutual_sibling_ns: false,
             zero_ttl_outside_ns_addresses: 0,
             short_ttl_value: 0,
+            ghost_ns_percent: 0,
         }
     }
 }
@@ -632,6 +637,39 @@ pub fn generate(r: &mut Rng, opts: &GenOpts) -> Universe {
                 }
                 u.zones[z].ns = vec![host];
             }
+        }
+    }
+    // a lame name-server name beside a working one, both outside the zone
+    if opts.ghost_ns_percent > 0 {
+        for zi in 2..u.zones.len() {
+            if r.below(100) >= u64::from(opts.ghost_ns_percent) {
+                continue;
+            }
+            // nobody may depend on this zone's own servers
+            let used_elsewhere = u
+                .zones
+                .iter()
+                .enumerate()
+                .any(|(i, o)| i != zi && o.ns.iter().any(|h| under(h, &u.zones[zi].apex)));
+            if used_elsewhere {
+                continue;
+            }
+            let providers: Vec<(usize, String)> = (1..u.zones.len())
+                .filter(|&j| j != zi && !under(&u.zones[zi].apex, &u.zones[j].apex) && !under(&u.zones[j].apex, &u.zones[zi].apex))
+                .filter_map(|j| {
+                    u.zones[j]
+                        .ns
+                        .iter()
+                        .find(|h| under(h, &u.zones[j].apex) && !u.host_addresses(h).is_empty())
+                        .map(|h| (j, h.clone()))
+                })
+                .collect();
+            if providers.is_empty() {
+                continue;
+            }
+            let (j, host) = r.pick(&providers).clone();
+            let ghost = child_name(&format!("ghost{zi}"), &u.zones[j].apex);
+            u.zones[zi].ns = vec![ghost, host];
         }
     }
     // addresses that are never cached
